@@ -108,24 +108,27 @@ def emit_integrate(R):
     text = X.strip_comments(X.read_source(CPP))
     outs, fns, srcs, emis = [], [], [], []
     for nm, sig, chdr in (("integrate", r'void\s+TasmanianSparseGrid::integrate\s*\(\s*double\s+q\[\]\s*\)\s*const', "void TSG_integrate(const TSGC *self, double q[])"),
-                          ("getQuadratureWeights", r'void\s+TasmanianSparseGrid::getQuadratureWeights\s*\(\s*double\s*\*weights\s*\)\s*const', "void TSG_getQuadratureWeights(const TSGC *self, double *weights)")):
+                          ("getQuadratureWeights", r'void\s+TasmanianSparseGrid::getQuadratureWeights\s*\(\s*double\s*\*weights\s*\)\s*const', "void TSG_getQuadratureWeights(const TSGC *self, double *weights)"),
+                          ("integrateHierarchicalFunctions", r'void\s+TasmanianSparseGrid::integrateHierarchicalFunctions\s*\(\s*double\s+integrals\[\]\s*\)\s*const', "void TSG_integrateHierarchicalFunctions(const TSGC *self, double integrals[])")):
         (p,) = X.cut(CPP, sig, text)
         b = p.body
         b = R.sub("R11-omp-pragma", r'#\s*pragma\s+omp[^\n]*', '', b)
+        b = X.r9_throws(R, b)
+        b = R.sub("R10-member-call", r'(?<![\w.>])empty\(\)', '(self->npoints < 0)', b)
         b = R.sub("R10-member", r'(?<![\w.>])(domain_transform_a|conformal_asin_power)\.size\(\)', r'self->\1_size', b)
         b = R.sub("R10-base-call", r'\bbase\s*->\s*(getNumDimensions|getRule|getNumPoints)\(\)', r'base_\1(self)', b)
-        b = X.balanced_call_sub(R, "R10-base-call", b, r'\bbase\s*->\s*(integrate|getQuadratureWeights)\s*(?=\()', lambda m, a: "base_%s(self, %s)" % (m.group(1), a))
+        b = X.balanced_call_sub(R, "R10-base-call", b, r'\bbase\s*->\s*(integrate|getQuadratureWeights|integrateHierarchicalFunctions)\s*(?=\()', lambda m, a: "base_%s(self, %s)" % (m.group(1), a))
         b = R.sub("R5-local-vector", r'std::vector<double>\s+correction\(\s*num_points\s*,\s*1\.0\s*\)\s*;', 'double correction[TSG_NPNT]; __CPROVER_assert(num_points <= TSG_NPNT, "shim: correction capacity"); for (int c_ = 0; c_ < TSG_NPNT; c_++) correction[c_] = 1.0;', b)
         b = R.sub("R5-data", r'\bcorrection\.data\(\)', 'correction', b)
         b = R.sub("R10-receiver-call", r'(?<![\w.>])(mapConformalWeights|getQuadratureScale)\(', r'\1(self, ', b)
-        b = R.sub("R10-member-call", r'(?<![\w.>])(getNumOutputs|getNumPoints)\(\)', r'base_\1(self)', b)
-        b = R.sub("R13-fp-mul", r'\b(q\[k\]|weights\[i\])\s*\*=\s*scale\s*;', r'\1 = tsg_scaled(\1, scale);', b)
+        b = R.sub("R10-member-call", r'(?<![\w.>])(getNumOutputs|getNumPoints|getNumLoaded|getNumNeeded)\(\)', r'base_\1(self)', b)
+        b = R.sub("R13-fp-mul", r'\b(q\[k\]|weights\[i\]|integrals\[i\])\s*\*=\s*scale\s*;', r'\1 = tsg_scaled(\1, scale);', b)
         X.check_leftover(b, nm)
         outs.append('#line %d "%s"\n%s%s' % (p.line, X.REPO + "/" + p.rel, chdr, b))
         fns.append({"name": "TasmanianSparseGrid::" + nm, "file": p.rel, "line": p.line, "loops": X.count_loops(b)}); srcs.append(p.body); emis.append(b)
-    R.require({"R13-fp-mul": 2, "R10-receiver-call": 3, "R10-base-call": 6})
+    R.require({"R13-fp-mul": 3, "R10-receiver-call": 4, "R10-base-call": 8})
     info = {"functions": fns, "rules_fired": {k: v for k, v in R.counts.items() if v},
-            "fidelity": X.fidelity("\n".join(srcs), "\n".join(emis), extra_vocab=["domain_transform_a", "conformal_asin_power", "size", "base", "getNumDimensions", "getRule", "getNumPoints", "getNumOutputs", "integrate", "getQuadratureWeights",
-                                                                               "correction", "vector", "double", "data", "mapConformalWeights", "getQuadratureScale", "scale", "q", "k", "weights", "i", "pragma", "omp", "parallel", "for", "schedule", "static", "1.0", "*="], slack=24),
+            "fidelity": X.fidelity("\n".join(srcs), "\n".join(emis), extra_vocab=["domain_transform_a", "conformal_asin_power", "size", "base", "getNumDimensions", "getRule", "getNumPoints", "getNumOutputs", "getNumLoaded", "getNumNeeded", "integrate", "getQuadratureWeights", "integrateHierarchicalFunctions", "integrals",
+                                                                               "correction", "vector", "double", "data", "empty", "runtime_error", "mapConformalWeights", "getQuadratureScale", "scale", "q", "k", "weights", "i", "pragma", "omp", "parallel", "for", "schedule", "static", "1.0", "*="], slack=24),
             "drops": ["#pragma omp parallel for"]}
     return "\n".join(outs) + "\n", info
